@@ -607,6 +607,10 @@ class Executor(object):
                 if isinstance(idx, Raised):
                     out.append((s2, idx))
                     continue
+                if isinstance(v, Ref) and s2.obj(v).kind == "object" and ("getitem:" + s2.obj(v).cls) not in self.call_hooks and \
+                        (self.src.find_method(s2.obj(v).cls, "__getitem__") is not None or ("%s.__getitem__" % s2.obj(v).cls) in self.contracts):
+                    out.extend(self.call_method(BoundMethod(v, "__getitem__"), [idx], {}, s2, ctx, node))
+                    continue
                 try:
                     out.append((s2, self.subscript(v, idx, s2, ctx, node)))
                 except B.OutOfBounds as oob:
@@ -1083,7 +1087,12 @@ class Executor(object):
         env2 = dict(env)
         env2["result"] = res
         for e in c.ensures:
-            st.assume(to_bool(self.eval_spec(e, st, cctx, extra=env2)))
+            g = self.eval_spec(e, st, cctx, extra=env2)
+            if isinstance(g, bool) and not g:
+                # a post-condition that evaluates to the constant False at a call site means the contract does not fit the call
+                # (e.g. missing result description): refusing is better than silently assuming False (everything after would be vacuous)
+                raise Unsupported("contract %s: clause %r evaluates to False at the call site in %s" % (c.short, e, ctx.tag))
+            st.assume(to_bool(g))
         out.append((st, res))
         return out
 
@@ -1733,6 +1742,8 @@ class Executor(object):
             tr = ".".join("%d%s" % (ln, "T" if b else "F") for ln, b in s.trace)
             pctx = Ctx(fi, c, fi.cls, lifted=c.lifted, tag=fi.qualname)
             pctx.entry = ctx.entry
+            if i < 40:
+                self.reg.cover("%s/%s/cover#return-path[%s]" % (self.prop, fi.qualname, tr), fi.qualname, self.global_axioms + s.pc)
             if isinstance(v, Raised):
                 clauses, kind, extra = c.ensures_exc, "post-exc", {"exc": v.exc}
             else:
